@@ -3104,7 +3104,13 @@ class QuicConnection:
             crypto = self._cryptos[tls.Epoch.ONE_RTT]
             crypto_stream = self._crypto_streams[tls.Epoch.ONE_RTT]
             packet_type = QuicPacketType.ONE_RTT
-        elif self._cryptos[tls.Epoch.ZERO_RTT].send.is_valid():
+        elif (
+            self._cryptos[tls.Epoch.ZERO_RTT].send.is_valid()
+            and self._cryptos[tls.Epoch.ZERO_RTT].send.version == self._version
+        ):
+            # 0-RTT packets are only sent with the version their keys were
+            # derived for: after compatible version negotiation changed the
+            # version, early data waits for the 1-RTT keys (RFC 9369, 4.1).
             crypto = self._cryptos[tls.Epoch.ZERO_RTT]
             packet_type = QuicPacketType.ZERO_RTT
         else:
